@@ -37,7 +37,10 @@ Ltac nb :=
   | H : negb _ = false |- _ => apply negb_false_iff in H
   | H : Some _ = Some _ |- _ => injection H as H; subst
   end.
-Ltac finish := try reflexivity; try congruence; cbn [orb andb negb] in *; try discriminate; nb; try reflexivity; try congruence; try (exfalso; congruence).
+(* two readings of the same cell that ended up in different hypotheses *)
+Ltac same_cell := repeat match goal with H1 : ?x = Some _, H2 : ?x = Some _ |- _ => rewrite H1 in H2; injection H2 as H2; subst end.
+Ltac finish := try reflexivity; try congruence; cbn [orb andb negb] in *; try discriminate; nb; try reflexivity; try congruence;
+  try (exfalso; congruence); same_cell; nb; try reflexivity; try congruence; try (exfalso; congruence).
 Ltac crush := intros; match goal with h : Heap |- _ => destruct h as [hn hp ho hv hl hf] end; unfold_all; repeat break1; finish.
 
 Theorem code_Len : forall h L, g_DList_Len h (Some L) = Ret (h, llen (tm h) L).
@@ -115,6 +118,18 @@ Theorem code_MoveToFront : forall h L e, g_DList_MoveToFront h (Some L) (Some e)
   if negb (owned (tm h) e L) || oeqb (nxt (tm h) L) e then Ret (h, tt) else mmap st_u (lift (move (tm h) e L)).
 Proof. crush2. Qed.
 
+Theorem code_MoveToBack : forall h L e, g_DList_MoveToBack h (Some L) (Some e) =
+  if negb (owned (tm h) e L) || oeqb (prv (tm h) L) e then Ret (h, tt) else mmap st_u (lift (at_prev (tm h) L (move (tm h) e))).
+Proof. crush2. Qed.
+Theorem code_MoveBefore : forall h L e mark, g_DList_MoveBefore h (Some L) (Some e) (Some mark) =
+  if negb (owned (tm h) e L) || Nat.eqb e mark || negb (owned (tm h) mark L) then Ret (h, tt)
+  else mmap st_u (lift (at_prev (tm h) mark (move (tm h) e))).
+Proof. crush2. Qed.
+Theorem code_MoveAfter : forall h L e mark, g_DList_MoveAfter h (Some L) (Some e) (Some mark) =
+  if negb (owned (tm h) e L) || Nat.eqb e mark || negb (owned (tm h) mark L) then Ret (h, tt)
+  else mmap st_u (lift (move (tm h) e mark)).
+Proof. crush2. Qed.
+
 (* the conjunction Props/C13.v exports (stated here because Gen/DListCode.v and Gen/SListCode.v both define Heap, mkHeap,
    h_fresh: Props/C13.v does not import this area's names).  All for non-nil list / node arguments (ids). *)
 Definition dlist_code_is_model_stmt : Prop :=
@@ -147,11 +162,21 @@ Definition dlist_code_is_model_stmt : Prop :=
      if negb (owned (tm h) mark L) then Ret (h, tt) else mmap st_u (lift (insert (tm h) L e mark))) /\
   (forall h L e, g_DList_MoveToFront h (Some L) (Some e) =
      if negb (owned (tm h) e L) || oeqb (nxt (tm h) L) e then Ret (h, tt) else mmap st_u (lift (move (tm h) e L))) /\
+  (forall h L e, g_DList_MoveToBack h (Some L) (Some e) =
+     if negb (owned (tm h) e L) || oeqb (prv (tm h) L) e then Ret (h, tt)
+     else mmap st_u (lift (at_prev (tm h) L (move (tm h) e)))) /\
+  (forall h L e mark, g_DList_MoveBefore h (Some L) (Some e) (Some mark) =
+     if negb (owned (tm h) e L) || Nat.eqb e mark || negb (owned (tm h) mark L) then Ret (h, tt)
+     else mmap st_u (lift (at_prev (tm h) mark (move (tm h) e)))) /\
+  (forall h L e mark, g_DList_MoveAfter h (Some L) (Some e) (Some mark) =
+     if negb (owned (tm h) e L) || Nat.eqb e mark || negb (owned (tm h) mark L) then Ret (h, tt)
+     else mmap st_u (lift (move (tm h) e mark))) /\
   (forall h, hm (tm h) = h) /\ (forall m, tm (hm m) = m).
 Theorem dlist_code_is_model : dlist_code_is_model_stmt.
 Proof.
   exact (conj code_Len (conj code_Init (conj code_lazyInit (conj code_Front (conj code_Back (conj code_Next (conj code_Prev
         (conj code_insert (conj code_insertValue (conj code_remove (conj code_move (conj code_Remove (conj code_PushFront
         (conj code_PushBack (conj code_InsertBefore (conj code_InsertAfter (conj code_PushFrontNode (conj code_PushBackNode
-        (conj code_InsertNodeBefore (conj code_InsertNodeAfter (conj code_MoveToFront (conj hm_tm tm_hm)))))))))))))))))))))).
+        (conj code_InsertNodeBefore (conj code_InsertNodeAfter (conj code_MoveToFront (conj code_MoveToBack (conj code_MoveBefore
+        (conj code_MoveAfter (conj hm_tm tm_hm))))))))))))))))))))))))).
 Qed.
